@@ -10,7 +10,9 @@ ASSUMPTIONS = ["each assertion is executed twice on the real code over p = 97 (b
                "searched exhaustively for a satisfying assignment with the operand wires fixed (all auxiliary wires free)",
                "the asserted relation is also evaluated independently from the property text (equal, not equal, <, <=, >, >=, zero, "
                "non-zero, 0 <= v < 2^width, lo <= v < hi, boolean, n-bit)"]
-PARTIAL = ["theorems are for unguarded states"]
+PARTIAL = ["gadget-level theorems are for unguarded states; C03_program (every executed assertion holds under every satisfying assignment) is "
+           "for runs inside SoundFragment (Spec/SoundProg.lean: no guarded regions, error checking on, none of the operators recorded unsound "
+           "under C02): assertions executed under a guard are covered by the oracle only"]
 LEVELS = "S"
 P = 97
 KINDS = ["assert_lt", "assert_le", "assert_eq", "assert_ne", "assert_gt", "assert_ge", "assert_zero", "assert_nonzero",
